@@ -111,6 +111,21 @@ def handler : Driver.Handler := fun c i => do
                else none)
             else some "x-qe-distributed missing"
       else none
+    -- the view decides: a statement that the view says is answered locally, and that the local engine answers, is a 200
+    let o : Option String :=
+      match o with
+      | some w => some w
+      | none =>
+        match mode with
+        | some m =>
+          let localDue := !(route m membersUp planOk).1
+          if path == "/sql" && ready && fmt.isSome && bodyK == "stmt" && localDue && localOut == .ok && status != 200 then
+            some s!"the view ({membersUp} member(s) up, mode/plan say local) calls for a local answer but the node answered {status}"
+          else if status == 200 && path == "/sql" &&
+                  (match (optStr i "shards").bind String.toNat? with | some sh => sh > membersUp | none => false) then
+            some "fragments were sent to more nodes than the members that are up"
+          else none
+        | none => none
     let o : Option String :=
       match o with
       | some w => some w
@@ -122,6 +137,12 @@ def handler : Driver.Handler := fun c i => do
     let tags := [s!"node-{node}", s!"path{path}", modeTag, fmtTag, s!"status-{status}", s!"body-{bodyK}"]
                 ++ (if status == 200 && path == "/sql" then [if distHdr == some "true" then "dist-true" else s!"dist-false-{reasonClass skipped}"] else [])
                 ++ (if faultActive then ["fault-active"] else []) ++ (if !ready then ["not-ready"] else [])
+                ++ (match (c.getObjVal? "view").toOption.bind (fun v => v.getArr?.toOption) with
+                    | some arr =>
+                      let ks := arr.toList.filterMap (fun (x : Json) => x.getStr?.toOption)
+                      ["view-unknown-peer"] ++ (if ks.contains "unknown-absent" then ["unk-absent"] else []) ++ (if ks.contains "unknown-alive" then ["unk-alive"] else [])
+                      ++ (if ks.contains "up" || ks.contains "down" then ["view-mixed"] else ["view-unknown-only"])
+                    | none => [])
                 ++ (if status == 200 && (expect.getD []).length > 0 then ["rows-compared"] else [])
     pure { model := respJson model, k := k, oracle := o, nt := status == 200 || !ready || faultActive, tags := tags }
 
